@@ -8,7 +8,8 @@ CredLists == { <<>>, <<Cr("alice", "pw")>>, <<Cr("alice", "pw"), Cr("bob", "pw2"
                <<Cr("{env.VERIF_USER}", "{env.VERIF_PASS}")>>, <<Cr("{env.VERIF_UNSET}", "x")>> }
 MethodLists == { <<0>>, <<2>>, <<0, 2>>, <<1>>, <<>>, <<128, 2>> }
 Auths == {"right", "wronguser", "wrongpass", "empty", "emptyuser", "malformed"}
-Cfgs == [cmds : CmdLists, creds : CredLists]
+\* form: the configuration reaches the handler as JSON or through the documented Caddyfile syntax
+Cfgs == [cmds : CmdLists, creds : CredLists, form : {"json", "caddyfile"}]
 Scripts == [methods : MethodLists, auth : Auths, cmd : {1, 2, 3, 0, 9}, atyp : IF Tier = "quick" THEN {1, 3, 5} ELSE {1, 3, 4, 5}]
 VARIABLES cfg, sc
 Init == cfg \in Cfgs /\ sc \in Scripts
